@@ -6,7 +6,7 @@ def self_controls(prog, facts):
     from . import perturb
 
     def rule(c, p2):
-        rules_rep.check_has_move(c, p2)
+        rules_rep.check_has_move(c, p2, tables=False)
     return perturb.run_controls([('has-move shortcut with another step cut',
                                   lambda f: perturb.perturb_int(f, 'GameState::has_non_passing_like_action', 3, 2, ty='usize'), rule, 'C07.2a')], facts)
 
